@@ -13,3 +13,6 @@ import Juniper.Props.C16
 import Juniper.Props.C18
 import Juniper.Props.C20
 import Juniper.Props.C17
+import Juniper.Props.C01
+import Juniper.Props.C02
+import Juniper.Props.C03
